@@ -1,5 +1,176 @@
 import Rivaas.Proto
-/- Driver for C09 (stub: not built yet) -/
-def main : IO UInt32 := do
-  IO.eprintln "driver for C09 is not built yet"
-  return 2
+import Rivaas.Spec.Lifecycle
+import Rivaas.Model.Lifecycle
+/-
+Driver for C09. Case line (see harness/c09):
+
+  <id> <metrics> <tracing> <listen 0|1|2> <starts: n b…> <readies: n b…> <nReload> <shuts: n b…> <stops: n b…>
+       <reqs: n (H j | D | N)…> <rounds: n (trig  n b…  (0 | 1 j)  pair)…>
+    => LOG n <event>… RES <code> FIN <app> <met> RQ n <0|1|2>… RR n <0|1|2|9>…
+
+events:  s i a m | S i | y i a m | l r i | L r i | q k | Q k m | c | h i a m live | H i | f | p i a m | P i | r
+-/
+namespace Rivaas.DriverC09
+open Rivaas.Proto Rivaas.Lifecycle
+
+def pHB : P HB := do
+  let n ← nat
+  match n with
+  | 0 => pure .ok
+  | 1 => pure .err
+  | 2 => pure .panic
+  | 3 => pure .block
+  | 4 => pure .cancelOk
+  | _ => failure
+
+def pListen : P Listen := do
+  let n ← nat
+  match n with
+  | 0 => pure .ok
+  | 1 => pure .busy
+  | 2 => pure .bad
+  | _ => failure
+
+def pRel : P Rel := do
+  let t ← tok
+  if t == "H" then Rel.hook <$> nat
+  else if t == "D" then pure .drain
+  else if t == "N" then pure .never
+  else failure
+
+def pRound : P Round := do
+  let t ← nat
+  let trig ← (if t == 0 then pure Trig.prog else if t == 1 then pure Trig.hup else failure : P Trig)
+  let beh ← list pHB
+  let ca ← opt nat
+  let pair ← bool
+  pure { trig := trig, beh := beh, cancelAt := ca, pair := pair }
+
+def pScenario : P Scenario := do
+  let m ← bool
+  let t ← bool
+  let l ← pListen
+  let starts ← list pHB
+  let readies ← list pHB
+  let nr ← nat
+  let shuts ← list pHB
+  let stops ← list pHB
+  let reqs ← list pRel
+  let rounds ← list pRound
+  pure { metrics := m, tracing := t, listen := l, starts := starts, readies := readies, nReload := nr,
+         shuts := shuts, stops := stops, reqs := reqs, rounds := rounds }
+
+def pEv : P Ev := do
+  let t ← tok
+  match t with
+  | "s" => do let i ← nat; let a ← bool; let m ← bool; pure (.startIn i a m)
+  | "S" => Ev.startOut <$> nat
+  | "y" => do let i ← nat; let a ← bool; let m ← bool; pure (.ready i a m)
+  | "l" => do let r ← nat; let i ← nat; pure (.reloadIn r i)
+  | "L" => do let r ← nat; let i ← nat; pure (.reloadOut r i)
+  | "q" => Ev.reqIn <$> nat
+  | "Q" => do let k ← nat; let m ← bool; pure (.reqFin k m)
+  | "c" => pure .sig
+  | "h" => do let i ← nat; let a ← bool; let m ← bool; let l ← bool; pure (.shutIn i a m l)
+  | "H" => Ev.shutOut <$> nat
+  | "f" => pure .flush
+  | "p" => do let i ← nat; let a ← bool; let m ← bool; pure (.stopIn i a m)
+  | "P" => Ev.stopOut <$> nat
+  | "r" => pure .ret
+  | _ => failure
+
+def pRes : P Res := do
+  let n ← nat
+  match n with
+  | 0 => pure .ok
+  | 1 => pure .errStartup
+  | 2 => pure .errListen
+  | 3 => pure .errDrain
+  | 4 => pure .errObs
+  | 5 => pure .other
+  | 8 => pure .hang
+  | 9 => pure .panic
+  | _ => failure
+
+def pReqRes : P ReqRes := do
+  let n ← nat
+  match n with
+  | 0 => pure .incomplete
+  | 1 => pure .complete
+  | 2 => pure .na
+  | _ => failure
+
+def pRRes : P RRes := do
+  let n ← nat
+  match n with
+  | 0 => pure .ok
+  | 1 => pure .err
+  | 9 => pure .panic
+  | 2 => pure .na
+  | _ => failure
+
+def pObs : P Obs := do
+  lit "LOG"
+  let log ← list pEv
+  lit "RES"
+  let res ← pRes
+  lit "FIN"
+  let fa ← bool
+  let fm ← bool
+  lit "RQ"
+  let rq ← list pReqRes
+  lit "RR"
+  let rr ← list pRRes
+  pure { log := log, res := res, finApp := fa, finMet := fm, reqs := rq, rounds := rr }
+
+def b01 (b : Bool) : String := if b then "1" else "0"
+
+def showEv : Ev → String
+  | .startIn i a m => s!"s {i} {b01 a} {b01 m}"
+  | .startOut i => s!"S {i}"
+  | .ready i a m => s!"y {i} {b01 a} {b01 m}"
+  | .reloadIn r i => s!"l {r} {i}"
+  | .reloadOut r i => s!"L {r} {i}"
+  | .reqIn k => s!"q {k}"
+  | .reqFin k m => s!"Q {k} {b01 m}"
+  | .sig => "c"
+  | .shutIn i a m l => s!"h {i} {b01 a} {b01 m} {b01 l}"
+  | .shutOut i => s!"H {i}"
+  | .flush => "f"
+  | .stopIn i a m => s!"p {i} {b01 a} {b01 m}"
+  | .stopOut i => s!"P {i}"
+  | .ret => "r"
+
+def showRes : Res → String
+  | .ok => "0" | .errStartup => "1" | .errListen => "2" | .errDrain => "3" | .errObs => "4"
+  | .other => "5" | .hang => "8" | .panic => "9"
+
+def showReqRes : ReqRes → String
+  | .incomplete => "0" | .complete => "1" | .na => "2"
+
+def showRRes : RRes → String
+  | .ok => "0" | .err => "1" | .panic => "9" | .na => "2"
+
+def showObs (o : Obs) : String :=
+  s!"LOG {o.log.length} " ++ " ".intercalate (o.log.map showEv) ++
+  s!" RES {showRes o.res} FIN {b01 o.finApp} {b01 o.finMet} RQ {o.reqs.length} " ++
+  " ".intercalate (o.reqs.map showReqRes) ++ s!" RR {o.rounds.length} " ++
+  " ".intercalate (o.rounds.map showRRes)
+
+def step (line : String) : String :=
+  match splitCase line with
+  | none => "? bad-line"
+  | some (id, inp, obs) =>
+    match runP pScenario inp, runP pObs obs with
+    | some sc, some o =>
+      let m0 := run current sc false
+      let m1 := run current sc true
+      let mi := o == m0 || o == m1
+      let s := Spec.holds sc o
+      let d := Spec.classify sc
+      verdict id mi s d (showObs (if o == m1 then m1 else m0))
+    | _, _ => s!"{id} bad-case"
+
+end Rivaas.DriverC09
+
+def main : IO UInt32 := Rivaas.Proto.driverMain Rivaas.DriverC09.step
